@@ -38,7 +38,7 @@ def single_cases():
     cases.append(("odd-filename-json", {"args": ["report", odd], "files": {odd: ins["simple"]}}))
     cases.append(("odd-filename-csv", {"args": ["--quiet", "report", "--csv", odd], "files": {odd: ins["own-both"]}}))
     good = ins["simple"]
-    for rname in ("../esc", "sub/dir/deep", "./x"):
+    for rname in ("../esc", "sub/dir/deep", "./x", "../newdir/deep/x", "a/../../up/y"):
         cases.append((f"report-name-{rname}", {"args": ["report", "in.tjp"], "files": {"in.tjp": good + f'taskreport r1 "{rname}" {{\n  formats json, csv\n  columns id\n}}\n'.encode()}}))
     for name in ("missing", "directory", "empty-file", "empty-stdin", "syntax-error", "syntax-error-stdin", "not-utf8", "illegal-report-name"):
         b = bad[name]
